@@ -342,7 +342,7 @@ def _case_ext(case, ctx):
         pts = sorted(p for p in pts if 0 <= p <= size + 1)
         reqs = request_pairs(pts)
     subject = "qcow2.extl2" + (".backing" if bn is not None else "")
-    with ctx.watch(case, 20):
+    with ctx.watch(case, 90):
         q = _open(ctx, case, img, None, backing_fh, subject, img.size > (8 << 20))
         if q is None:
             return
